@@ -32,6 +32,8 @@ def run(ck, an, tier):
     d = Renamed(ck, "C04:")          # delivery clauses, numbered as in C04
     C04.partitions(d, an)
     C04.nxt(d, an)
+    from rules import C18 as _c18, ledger as _ledger
+    _c18.s1(_ledger._Only(Renamed(ck, "C18:"), {"prices-table-untouched", "quote-time", "every-price-row"}), an)      # a quote is stamped with the time it was given for: nothing re-stamps the price table
     s3(ck, an)
     s4(ck, an)
     s5(ck, an)
